@@ -22,8 +22,19 @@ ASSUMPTIONS = [
     'pairs give distinct nonces is HMAC pseudo-randomness and is not claimed',
     'modelled, not verified: SHA-256/HMAC transcriptions (validated against hashlib each run); public keys reach the '
     'model as SEC-shaped bytes (33 bytes 02/03, 65 bytes 04) read by Key(bytes) with the default strict=True (theorem '
-    'lib_pub_point_exact ties that reader to SEC 1 2.3.4); other key spellings belong to C04/C12; digests given as odd-length hex '
-    'text are outside the model (bytes, lower-case hex, upper-case hex only)',
+    'lib_pub_point_exact ties that reader to SEC 1 2.3.4); other key spellings (WIF, extended keys, 32-byte private keys offered '
+    'as the public key) belong to C04/C12',
+    'argument forms: every digest / signature / key argument is modelled AS GIVEN (Model/Ecdsa.v parg = PBytes | PText; '
+    'to_hexstring, the txid setter, bytes.fromhex, HDKey(text), and the way fastecdsa\'s C code reads the digest text — GMP '
+    'base-16 conversion that skips white space and yields 0 on any other character, cut to 256 bits by CHARACTER count — '
+    'which is part of the implementation under test and is known from the correspondence only, not from source).  The '
+    'meaning of a bytes argument is its bytes, the meaning of a str argument is the bytes its base-16 text decodes to '
+    '(arg_meaning); theorems verify_argument_form_irrelevant / sign_argument_form_irrelevant / *_session_form_irrelevant '
+    'hold for every argument that has a meaning; base-16 text with white space is accepted by the oracle under either '
+    'reading (refuse / skip the blanks), any other text must be refused.  Text is ASCII (non-ASCII str arguments and a '
+    'leading minus sign are not generated); private keys reach the model as integers — the private-key argument forms of '
+    'sign (Key / HDKey from hex or bytes, hex str in both cases, the 32 raw bytes, hex-looking bytes) are exercised by the '
+    'correspondence only',
     'sessions: Model/Ecdsa.v lib_sign_session / lib_verify_session are folds carrying the state the code keeps '
     '(nothing for signing; _txid, x, y, _public_key of the Signature object); theorems sign_session_is_function, '
     'verify_session_is_function, verify_session_exact say the fold is the map of the stateless functions; the '
@@ -42,6 +53,16 @@ RULE = ('boundary stream (keys, digests, nonces, r/s at 0,1,n-1,n,n+1,2^256-1, s
         'with and without public_key=, Signature(r, s, ..)) verified through keys.verify and Signature.verify against '
         'sequences of keys (own, negated, equal-y, unrelated; Key / HDKey / bytes / hex text in both cases / tuple / private key) and '
         'digests, with omitted arguments, each verdict compared with the model session and independent ECDSA; '
+        'ARGUMENT FORMS on every entry point (sign, verify, Signature.create / parse / parse_bytes / parse_hex, '
+        'Signature(r, s, txid=, public_key=), Signature.verify, the txid / public_key setters, bytes() / hex() / '
+        'as_der_encoded / str() of every reported object): digests as BYTES made of ASCII hex characters only (lower, upper, '
+        'mixed; 16, 31, 32, 33, 64 bytes) — each with the signature of the value they would un-hexlify to, which must be '
+        'rejected for the bytes and accepted for the same characters as text —, digests / signatures / keys as base-16 text '
+        'in lower, upper and mixed case, with white space (blanks, tab, trailing newline), as text that is not base-16 '
+        '(odd length, 0x prefix, other letters); VALID triples whose compact signature, DER integers + hash type, digest, or '
+        'public-key x coordinate consist of ASCII hex characters only (key recovered from chosen r, s, z), and one whose '
+        'signature bytes are non-hex letters; the ASCII bytes of a hex text offered as a bytes object; hex-looking private '
+        'keys as Key / HDKey / hex str / raw bytes; sessions mixing all of these on one object; '
         'non-trivial = the implementation returns a value (not ERR); distinct by request')
 
 # ---------------------------------------------------------------- independent oracle (SEC 2 constants, SEC 1 4.1.3/4.1.4,
